@@ -132,6 +132,10 @@ DaemonKeys(d) == DOMAIN d.sel \cup ExprKeys(d.terms)
 AllLabellings(cfg, K) == [K -> UNION {Range(cfg.universe[k]) : k \in K} \cup {Absent}]
 \* can pod p's original required constraints hold on ANY node at all?
 Satisfiable(cfg, p) == \E L \in AllLabellings(cfg, PodKeys(cfg, p)) : OrigRequired(cfg, p, L)
+\* a required OR-term of p that no node can satisfy together with p's node selector (the pod itself may still be satisfiable
+\* through another term)
+HasDeadTerm(cfg, p) ==
+    \E i \in DOMAIN p.terms : ~\E L \in AllLabellings(cfg, PodKeys(cfg, p)) : SelHolds(p.sel, L) /\ TermHolds(cfg, p.terms[i], L)
 \* keys pod q constrains negatively (NotIn / DoesNotExist)
 NegKeys(q) == UNION {{q.terms[i][j].key : j \in {x \in DOMAIN q.terms[i] : q.terms[i][x].op \in {"NotIn", "DoesNotExist"}}} : i \in DOMAIN q.terms}
 \* p fails on labelling L but would hold if the keys K (missing from L) carried some value
@@ -139,6 +143,7 @@ HoldsOnPhantom(cfg, p, L, K) ==
     \E X \in AllLabellings(cfg, K) : OrigRequired(cfg, p, [k \in DOMAIN L \cup K |-> IF k \in K THEN X[k] ELSE L[k]])
 LabelSig(cfg, failing, others(_), L) ==
     IF \A p \in failing : ~Satisfiable(cfg, p) THEN "labels:unsatisfiable-pod"
+    ELSE IF \A p \in failing : ~Satisfiable(cfg, p) \/ HasDeadTerm(cfg, p) THEN "labels:pod-with-unsatisfiable-or-term"
     ELSE IF \A p \in failing : ~Satisfiable(cfg, p)
                 \/ HoldsOnPhantom(cfg, p, L, (UNION {NegKeys(q) : q \in others(p)}) \ DOMAIN L)
          THEN "labels:key-missing-on-node-but-negated-by-sibling"
@@ -224,10 +229,12 @@ Dom(cfg, c, it, o, k) ==
 Labellings(cfg, c, it, o, K) ==
     LET D == [k \in K |-> Dom(cfg, c, it, o, k)] IN
     {L \in [K -> UNION {D[k] : k \in K}] : \A k \in K : L[k] \in D[k]}
+(* allocatable of ONE offering, from first principles: (capacity, with the offering's capacity override per resource) minus *)
+(* (total overhead, with the offering's overhead override per resource) - independent of how the code groups offerings     *)
 OfferingAlloc(it, o) ==
-    [cpu  |-> (IF o.cpuOv > 0 THEN o.cpuOv ELSE it.cpu) - it.ovCpu,
-     mem  |-> (IF o.memOv > 0 THEN o.memOv ELSE it.mem) - it.ovMem,
-     pods |-> it.pods]
+    [cpu  |-> (IF o.cpuOv > 0 THEN o.cpuOv ELSE it.cpu) - (IF o.ohCpu > 0 THEN o.ohCpu ELSE it.ovCpu),
+     mem  |-> (IF o.memOv > 0 THEN o.memOv ELSE it.mem) - (IF o.ohMem > 0 THEN o.ohMem ELSE it.ovMem),
+     pods |-> IF o.podsOv > 0 THEN o.podsOv ELSE it.pods]
 \* daemonsets that run on EVERY node (c, it, o) can become
 CertainDaemons(cfg, c, it, o) ==
     {d \in Range(cfg.ds) : \A L \in Labellings(cfg, c, it, o, DaemonKeys(d)) : DaemonRuns(cfg, d, L, c.taints)}
@@ -262,7 +269,12 @@ G_C01_Claim(cfg, c) ==
     /\ \A itn \in LaunchTypes(cfg, c, P) : TypeOK4Claim(cfg, c, P, itn)
 SigClaim(cfg, c) ==
     LET P == ClaimPods(cfg, c)
-        pin == IF Pinned(c) THEN ":reserved-pinned" ELSE "" IN
+        pin == IF Pinned(c) THEN ":reserved-pinned" ELSE ""
+        \* custom keys the claim's NodePool template defines (requirements or labels)
+        poolRecs == {x \in Range(cfg.pools) : x.name = c.pool}
+        poolKeys == UNION {{x.reqs[i].key : i \in DOMAIN x.reqs} \cup DOMAIN x.labels : x \in poolRecs}
+        \* daemonsets that select a custom label only the PODS of the claim introduced
+        OnPodLabel(D) == {d \in D : \E k \in DaemonKeys(d) : k \notin WellKnown /\ k \notin poolKeys} IN
     IF ~\A p \in P : TaintsTolerated(p.tol, c.taints) THEN "taint"
     ELSE IF LaunchTypes(cfg, c, P) = {} THEN "no-instance-type" \o pin
     ELSE LET bad == CHOOSE itn \in LaunchTypes(cfg, c, P) : ~TypeOK4Claim(cfg, c, P, itn) IN
@@ -270,9 +282,15 @@ SigClaim(cfg, c) ==
          ELSE LET it == TypeByName(cfg, bad)
                   parts == {LaunchParts(cfg, c, P, it, it.offerings[i]) : i \in DOMAIN it.offerings}
               IN IF ~\E x \in parts : x.offering THEN "no-compatible-available-offering"
-                 ELSE IF ~\E x \in parts : x.offering /\ x.fit THEN "resources" \o pin
+                 ELSE IF ~\E x \in parts : x.offering /\ x.fit
+                      THEN (IF ~Pinned(c) /\ \E i \in DOMAIN it.offerings :
+                                   LET o == it.offerings[i] dm == CertainDaemons(cfg, c, it, o) IN
+                                   /\ LaunchParts(cfg, c, P, it, o).offering /\ OnPodLabel(dm) # {}
+                                   /\ LeqRes(AddRes(SumReq(P), SumReq(dm \ OnPodLabel(dm))), OfferingAlloc(it, o))
+                            THEN "resources:daemonset-selects-label-the-pool-does-not-define" ELSE "resources" \o pin)
                  ELSE IF ~\E x \in parts : x.offering /\ x.fit /\ x.labels
-                      THEN (IF \E p \in P : ~Satisfiable(cfg, p) THEN "labels:unsatisfiable-pod" ELSE "labels")
+                      THEN (IF \E p \in P : ~Satisfiable(cfg, p) THEN "labels:unsatisfiable-pod"
+                            ELSE IF \E p \in P : HasDeadTerm(cfg, p) THEN "labels:pod-with-unsatisfiable-or-term" ELSE "labels")
                  ELSE "hostport"
 
 ----------------------------------------------------------------------------
